@@ -2437,8 +2437,8 @@ def _one_info_ExceptHandler_name(self: fst.FST, static: onestatic, idx: int | No
     else:
         lines = self.root._lines
         ln, col = next_find(lines, ln, col, end_ln, end_col, 'as')  # skip the 'as'
-        ln, col = next_find(lines, ln, col + 2, end_ln, end_col, name)  # must be there
-        loc_prim = fstloc(ln, col, ln, col + len(name))
+        ln, col, src = next_find_re(lines, ln, col + 2, end_ln, end_col, re_identifier)  # must be there, by source spelling because may not be normalized like the AST name
+        loc_prim = fstloc(ln, col, ln, col + len(src))
 
     return oneinfo(' as ', loc_insdel, loc_prim)
 
@@ -2544,7 +2544,7 @@ def _one_info_arguments_kw_defaults(self: fst.FST, static: onestatic, idx: int |
 
     else:
         ln, col, _, _ = arg.f.loc
-        col += len(arg.arg)
+        col = re_identifier.match(self.root._lines[ln], col).end()  # must be there, by source spelling because may not be normalized like the AST name
         prefix = '='
 
     if default := self.a.kw_defaults[idx]:
@@ -2616,7 +2616,8 @@ def _one_info_arguments_kwarg(self: fst.FST, static: onestatic, idx: int | None,
     return oneinfo(', **', fstloc(ln, col, end_ln, end_col))
 
 def _one_info_arg_annotation(self: fst.FST, static: onestatic, idx: int | None, field: str) -> oneinfo:
-    return oneinfo(': ', fstloc((loc := self.loc).ln, loc.col + len(self.a.arg), self.end_ln, self.end_col))
+    return oneinfo(': ', fstloc((loc := self.loc).ln, re_identifier.match(self.root._lines[loc.ln], loc.col).end(),
+                                self.end_ln, self.end_col))
 
 def _one_info_keyword_arg(self: fst.FST, static: onestatic, idx: int | None, field: str) -> oneinfo:
     ast = self.a
@@ -2629,16 +2630,16 @@ def _one_info_keyword_arg(self: fst.FST, static: onestatic, idx: int | None, fie
 def _one_info_alias_asname(self: fst.FST, static: onestatic, idx: int | None, field: str) -> oneinfo:
     ast = self.a
     ln, col, end_ln, end_col = self.loc
-    loc_insdel = fstloc(ln, col + len(ast.name), end_ln, end_col)
+    lines = self.root._lines
+    loc_insdel = fstloc(ln, re_identifier_alias.match(lines[ln], col).end(), end_ln, end_col)  # by source spelling because may not be normalized like the AST name
 
-    if (asname := ast.asname) is None:
+    if ast.asname is None:
         loc_prim = None
 
     else:
-        lines = self.root._lines
-        ln, col = next_find(lines, ln, col, end_ln, end_col, 'as')  # skip the 'as'
-        ln, col = next_find(lines, ln, col + 2, end_ln, end_col, asname)  # must be there
-        loc_prim = fstloc(ln, col, ln, col + len(asname))
+        ln, col = next_find(lines, ln, loc_insdel.col, end_ln, end_col, 'as')  # skip the 'as'
+        ln, col, src = next_find_re(lines, ln, col + 2, end_ln, end_col, re_identifier)  # must be there
+        loc_prim = fstloc(ln, col, ln, col + len(src))
 
     return oneinfo(' as ', loc_insdel, loc_prim)
 
@@ -2672,11 +2673,13 @@ def _one_info_MatchMapping_rest(self: fst.FST, static: onestatic, idx: int | Non
         col += 1
         prefix = '**'
 
-    if (rest := ast.rest) is None:
+    if ast.rest is None:
         loc_prim = None
     else:
-        rest_ln, rest_col = next_find(self.root._lines, ln, col, end_ln, end_col, rest)
-        loc_prim = fstloc(rest_ln, rest_col, rest_ln, rest_col + len(rest))
+        lines = self.root._lines
+        rest_ln, rest_col = next_find(lines, ln, col, end_ln, end_col, '**')  # must be there
+        rest_ln, rest_col, src = next_find_re(lines, rest_ln, rest_col + 2, end_ln, end_col, re_identifier)  # must be there, by source spelling because may not be normalized like the AST name
+        loc_prim = fstloc(rest_ln, rest_col, rest_ln, rest_col + len(src))
 
     return oneinfo(prefix, fstloc(ln, col, end_ln, end_col), loc_prim)
 
@@ -2719,7 +2722,7 @@ def _one_info_MatchAs_pattern(self: fst.FST, static: onestatic, idx: int | None,
 
     lines = self.root._lines
     as_ln, as_col = next_find(lines, *pattern.f.pars()[2:], end_ln, end_col, 'as')  # skip the 'as'
-    end_ln, end_col = next_find(lines, as_ln, as_col + 2, end_ln, end_col, name)
+    end_ln, end_col, _ = next_find_re(lines, as_ln, as_col + 2, end_ln, end_col, re_identifier)  # must be there, by source spelling because may not be normalized like the AST name
 
     return oneinfo('', fstloc(ln, col, end_ln, end_col))
 
@@ -2734,13 +2737,13 @@ def _one_info_MatchAs_name(self: fst.FST, static: onestatic, idx: int | None, fi
         prefix = 'as'
         lines = self.root._lines
         ln, col = next_find(lines, *pattern.f.pars()[2:], end_ln, end_col, 'as')  # skip the 'as'
-        ln, col = next_find(lines, ln, col + 2, end_ln, end_col, ast.name or '_')
+        ln, col, _ = next_find_re(lines, ln, col + 2, end_ln, end_col, re_identifier)  # must be there ('_' is an identifier too), by source spelling because may not be normalized like the AST name
 
     return oneinfo(prefix, None, fstloc(ln, col, ln, end_col))
 
 def _one_info_TypeVar_bound(self: fst.FST, static: onestatic, idx: int | None, field: str) -> oneinfo:
     ln = self.ln
-    col = self.col + len(self.a.name)
+    col = re_identifier.match(self.root._lines[ln], self.col).end()  # must be there, by source spelling because may not be normalized like the AST name
 
     if bound := self.a.bound:
         _, _, end_ln, end_col = bound.f.pars()
@@ -2755,7 +2758,7 @@ def _one_info_TypeVar_default_value(self: fst.FST, static: onestatic, idx: int |
         _, _, ln, col = bound.f.pars()
     else:
         ln = self.ln
-        col = self.col + len(self.a.name)
+        col = re_identifier.match(self.root._lines[ln], self.col).end()  # must be there, by source spelling because may not be normalized like the AST name
 
     return oneinfo(' = ', fstloc(ln, col, self.end_ln, self.end_col))
 
